@@ -65,6 +65,19 @@ pub fn c07_history_case(rng: &mut Rng, st: &mut Stats) -> CaseOutcome {
             }
         }
     }
+    // advance_to with any position (before the start offset, between tokens, inside a character,
+    // beyond the input): the public method takes any usize and must not panic
+    for _ in 0..rng.below(3) {
+        let at = rng.below(ops.len() + 1);
+        let pos = match rng.below(4) {
+            0 => 0,
+            1 => rng.below(input.len() + 1),
+            2 => input.len() + rng.below(3),
+            _ => rng.below(4),
+        };
+        ops.insert(at, Op::AdvanceTo(pos));
+        st.count("advance_to_with_an_arbitrary_position");
+    }
     let case = || hist_case_json("wf_history", &cfg, &input, &ops, json!(null));
     let scanner = match build_any(&cfg, rng.chance(1, 4)) {
         Ok(s) => s,
